@@ -18,6 +18,7 @@ import IocProofs.Lemmas.M2Inv
 import Ioc.FactorySkel
 import Ioc.Generated.Facts
 import IocProofs.Lemmas.SemCreate
+import IocProofs.Lemmas.M2IsCode
 namespace Ioc.C03
 open Ioc.M2
 
@@ -219,6 +220,25 @@ theorem C03_code_decision (d : Sem.DCC) (e w : Nat)
       simp [hw]
       obtain ⟨x, hxm, hf⟩ := hex
       exact ⟨x, by simpa using hxm, hf⟩
+
+/-- THE MACHINE IS THE CODE at the step that decides C03.  At every reachable state of every scenario whose top frame has
+    all its points done, the factory machine's `step` (initialization callbacks, version check, publication or failure —
+    what `C03_no_stale`, `C03_stale_fails`, `C03_published_source` are about) does exactly what the REGENERATED
+    doCreateComponent returns when its collaborators answer from the machine state (`M2.dccOf`: the name is in creation,
+    InitializeComponent returns `initResult`, GetSingleton(name,false) returns the level-2 entry, GetDependents lists the
+    holders whose fields contain the object, IsSingletonCurrentlyInCreation is membership of the creation stack). -/
+theorem C03_machine_finish_is_code (sc : Scen) (wf : WF sc) (k : Nat) (f : Frame) (rest : List Frame)
+    (hrun : (run sc k (init sc)).status = .running) (hst : (run sc k (init sc)).stack = f :: rest)
+    (hp : ¬ f.p < (pts sc f.name).length) :
+    ∃ r t, Go.run (Sem.dccPrims (M2.dccOf sc (run sc k (init sc)) f.name)) Progs.fac_doCreateComponent
+              [.int f.name, .ref f.name 0] [] = some (Sem.encDecision f.name r, t) ∧
+      step sc (run sc k (init sc)) =
+        (match r with
+         | none => failAt (initCallbacks sc (run sc k (init sc)) f.name).1 f.name
+         | some v => publish (initCallbacks sc (run sc k (init sc)) f.name).1 f.name ⟨f.name, v⟩ rest) := by
+  have hi := inv_run sc wf k
+  refine ⟨_, _, Sem.doCreateComponent_sem _ (M2.dccOf_consistent sc _ hi f.name), ?_⟩
+  exact M2.step_finish_is_code sc wf _ hi f rest hrun hst hp
 
 /-- non-vacuity: a wrapped component (version 2) whose early reference (version 1) sits in a holder that already
     finished (3, not in creation) is refused; with that holder still in creation it is published as version 2 -/
